@@ -327,6 +327,26 @@ def endpoint_skeletons() -> dict[str, dict]:
         },
         requestBodies={"LeafBody": {"$ref": "#/components/requestBodies/LeafBody2"}, "LeafBody2": {"content": {"application/json": {"schema": ref("Leaf")}}}},
     )
+    # multipart/form-data bodies with every property kind (each kind has its own to_multipart encoding)
+    S["multipart"] = doc(
+        {
+            "Leaf": leaf,
+            "Color": color,
+            "PartsA": obj({"the-when": DATE, "the-color": ref("Color"), "stamp": DT, "ratio": NUM, "flag": BOOL}, ["the-when", "the-color"], additionalProperties=False),
+            "PartsB": obj({"tag-list": arr(STR), "count": INT}, ["count"], additionalProperties=False),
+            "Tiny": obj({"t-id": INT}, ["t-id"], additionalProperties=False),
+            "PartsD": obj({"meta": ref("Tiny"), "either": {"oneOf": [INT, STR]}, "u.id": UUID}, additionalProperties=False),
+            "PartsC": obj({"blob": {"type": "string", "format": "binary"}, "opt-blob": {"type": "string", "format": "binary"}, "note": STR, "level": {"type": "integer", "enum": [1, 2]}}, ["blob"]),
+            "PartsFiles": obj({"blobs": arr({"type": "string", "format": "binary"}), "note": STR}, ["blobs"], additionalProperties=False),
+        },
+        {
+            "/m/a": {"post": {"operationId": "postPartsA", "requestBody": {"content": {"multipart/form-data": {"schema": ref("PartsA")}}}, "responses": {"204": {"description": "none"}}}},
+            "/m/b": {"post": {"operationId": "postPartsB", "requestBody": {"content": {"multipart/form-data": {"schema": ref("PartsB")}}}, "responses": {"204": {"description": "none"}}}},
+            "/m/d": {"post": {"operationId": "postPartsD", "requestBody": {"content": {"multipart/form-data": {"schema": ref("PartsD")}}}, "responses": {"204": {"description": "none"}}}},
+            "/m/c": {"put": {"operationId": "putPartsC", "requestBody": {"content": {"multipart/form-data": {"schema": ref("PartsC")}}}, "parameters": [param("q", "query", STR)], "responses": {"204": {"description": "none"}}}},
+            "/m/files": {"post": {"operationId": "postPartsFiles", "requestBody": {"content": {"multipart/form-data": {"schema": ref("PartsFiles")}}}, "responses": {"204": {"description": "none"}}}},
+        },
+    )
     S["responses"] = doc(
         {"Leaf": leaf, "Err": obj({"err-code": INT, "msg": STR}, ["err-code"]), "Color": color},
         {
